@@ -141,7 +141,7 @@ def plan(tier, seed):
     n_sys = len(variants) * len(G.MODES) * len(rots)
     spec = _spec_docs()
     pairs = (G.pair_histories(tier) + G.nest_histories(tier) + G.cross_histories(tier) + G.toc_histories(tier)
-             + G.spec_pair_histories(tier, seed, spec))
+             + G.spec_pair_histories(tier, seed, spec) + G.atom_pair_histories(tier))
     if tier == 'thorough':
         n_rand, n_ff = int(os.environ.get('VERIF_C11_RUNS', 400000)), int(os.environ.get('VERIF_C11_FF_RUNS', 60000))
     else:
@@ -238,7 +238,7 @@ def warm_cache(tier):
                     keys.append([{'k': 'MD', 'R': rid, 'opts': {}, 'doc': D.PROBES[n]}])
     for n in names:
         keys.append([{'k': 'BARE', 'doc': D.PROBES[n]}])
-    for doc in _spec_docs():
+    for doc in _spec_docs() + [D.ATOM_PROBES[n] for n in sorted(D.ATOM_PROBES)]:
         for rid in W.RENDERER_IDS:
             keys.append([{'k': 'CTX', 'R': rid, 'opts': {}, 'exit': 'normal', 'steps': [{'k': 'RENDER', 'doc': doc}]}])
             keys.append([{'k': 'MD', 'R': rid, 'opts': {}, 'doc': doc}])
